@@ -905,3 +905,90 @@ pub fn suite_threads(out: &mut Out, tier: &str, rng: &mut Rng) {
         out.emit(json!({"op": "threads", "n": 16, "calls": calls}));
     }
 }
+
+/// C05: inputs that differ from a valid message only in octets the specification ignores
+pub fn suite_ignored(out: &mut Out, tier: &str, rng: &mut Rng) {
+    let n = counts(tier, 500, 20000);
+    for _ in 0..n {
+        let mut body = enc_avp(&gen_message_type(rng));
+        for _ in 0..rng.range(1, 5) {
+            match rng.below(8) {
+                0 => {
+                    // reserved octets of Call Errors / ACCM / Proxy Authen ID carry noise
+                    let t = *rng.pick(&[34u16, 35, 32]);
+                    let ki = KINDS.iter().position(|k| k.0 == t).unwrap();
+                    let a = gen_avp_kind(rng, ki, 4);
+                    let mut p = enc_payload(&a);
+                    p[0] = rng.u8();
+                    if t != 32 {
+                        p[1] = rng.u8();
+                    }
+                    body.extend(enc_record(1, 6 + p.len(), 0, t, &p));
+                }
+                1 => {
+                    // Sequencing Required with a payload
+                    let p = rng.rbytes(0, 6);
+                    body.extend(enc_record(1, 6 + p.len(), 0, 39, &p));
+                }
+                2 => {
+                    // Result Code with an odd third octet
+                    let code = rng.u16().to_be_bytes();
+                    body.extend(enc_record(1, 9, 0, 1, &[code[0], code[1], rng.u8()]));
+                }
+                3 => {
+                    // surplus payload after a fixed-size kind
+                    let fixed: Vec<usize> = (0..KINDS.len())
+                        .filter(|i| !KINDS[*i].2.iter().any(|o| matches!(o, Op::Rest | Op::Utf8 | Op::OptUtf8 | Op::OptErr)))
+                        .collect();
+                    let ki = *rng.pick(&fixed);
+                    let a = gen_avp_kind(rng, ki, 4);
+                    let mut p = enc_payload(&a);
+                    p.extend(rng.rbytes(1, 5));
+                    body.extend(enc_record(1, 6 + p.len(), 0, avp_type(&a), &p));
+                }
+                _ => {
+                    // M bit and reserved header bits
+                    let a = gen_avp(rng, 16);
+                    let p = enc_payload(&a);
+                    let h = if a["k"] == "Hidden" { 2 } else { 0 };
+                    body.extend(enc_record((rng.u8() & 0x3c) | h | (rng.u8() & 1), 6 + p.len(), 0, avp_type(&a), &p));
+                }
+            }
+        }
+        if rng.bool() {
+            body.extend(rng.rbytes(1, 5)); // 1..5 trailing octets of the AVP region
+        }
+        let mut b = enc_control_raw(flag_word(true, true, true, false, false, 2), None, [rng.u16(), rng.u16(), rng.u16(), rng.u16()], &body);
+        if rng.bool() {
+            b.extend(rng.rbytes(1, 12)); // beyond the declared Length
+        }
+        out.emit(json!({"op": "decode", "in": bytes_json(&b), "opts": gen_opts(rng), "entry": "validate", "rdr": "slice"}));
+    }
+}
+
+/// C11: revealing a non-hidden AVP returns it unchanged
+pub fn suite_reveal_plain(out: &mut Out, tier: &str, rng: &mut Rng) {
+    for ki in 0..KINDS.len() {
+        for _ in 0..counts(tier, 1, 10) {
+            out.emit(json!({"op": "reveal", "v": gen_avp_kind(rng, ki, 30), "secret": bytes_json(&rng.rbytes(0, 20)),
+                            "rv": bytes_json(&rng.bytes(4))}));
+        }
+    }
+}
+
+/// C15: control messages assembled from independently generated good and bad records
+pub fn suite_ctl_records(out: &mut Out, tier: &str, rng: &mut Rng) {
+    let n = counts(tier, 1500, 60000);
+    for _ in 0..n {
+        let mut body = if rng.chance(5, 6) { enc_avp(&gen_message_type(rng)) } else { random_record(rng) };
+        for _ in 0..rng.range(0, 11) {
+            if rng.chance(2, 3) {
+                body.extend(enc_avp(&gen_avp(rng, 16)));
+            } else {
+                body.extend(random_record(rng));
+            }
+        }
+        let b = enc_control_raw(flag_word(true, true, true, false, false, 2), None, [1, 2, 3, 4], &body);
+        out.emit(json!({"op": "decode", "in": bytes_json(&b), "opts": gen_opts(rng), "entry": "validate", "rdr": "slice"}));
+    }
+}
